@@ -130,7 +130,9 @@ pub struct Env {
 
 impl Env {
     pub fn new(tag: &str) -> Env {
-        let base = PathBuf::from(format!("/dev/shm/ttg-sim/{}-{}", tag, std::process::id()));
+        // fixed width: the length of the absolute world root ends up in file sizes (absolute
+        // output paths in configuration files), which are part of the event log
+        let base = PathBuf::from(format!("/dev/shm/ttg-sim/{:>10.10}-{:010}", tag, std::process::id()).replace(' ', "_"));
         let _ = std::fs::remove_dir_all(&base);
         std::fs::create_dir_all(&base).expect("create /dev/shm work dir");
         Env {
@@ -317,7 +319,7 @@ pub fn case_seed(seed: u64, check: &str, i: u64) -> u64 {
 }
 
 pub fn worker(check: &dyn Check, tier: Tier, seed: u64, k: u64, n: u64, limit: Option<u64>, no_min: bool) {
-    let mut env = Env::new(&format!("{}-w{}", check.id(), k));
+    let mut env = Env::new(&format!("{}-w{:02}", check.id(), k));
     let findings = load_findings();
     let total = limit.unwrap_or_else(|| check.cases(tier));
     let out = std::io::stdout();
